@@ -622,3 +622,42 @@ def check_queries(rec, prefix, G, M, nodes, ctx='', probes=None, nbunches=(), li
             exp = [t for t in ids if n in M.nodes_at(t)]
             chk('get_node_snapshots', got == exp, lambda: '%s get_node_snapshots(%r) = %r, expected %r' % (ctx, n, got, exp))
     return res[0]
+
+
+# ======================================================================= derived graphs stay usable
+def check_continuation(rec, prefix, H, HM, case, nodes, ctx='', k=0):
+    """A graph the library built itself must behave like any other graph afterwards: up to four add
+    calls of the case are shifted so that they start around H's last instant (one before it, on it,
+    right after it) and applied to H and to a copy of its presence model in lock step."""
+    from ..drive import apply_model, call_real, exc_kind
+    adds = [op for op in case.get('ops', []) if op[0] in ('add', 'add_from', 'path', 'star', 'cycle')][:4]
+    if not adds or not HM.removal:
+        return True
+    tpos = {'add': 3, 'add_from': 2, 'path': 2, 'star': 2, 'cycle': 2}
+    epos = {'add': 4, 'add_from': 3, 'path': 4, 'star': 4, 'cycle': 4}
+    inst = HM.mentioned_instants()
+    last = max(inst) if inst else 0
+    shift = last + (k % 3) - 1 - min(op[tpos[op[0]]] for op in adds)
+    M2 = HM.copy()
+    for n in nodes:
+        pass
+    res = True
+    for op in adds:
+        op2 = [x if not isinstance(x, list) else [y if not isinstance(y, list) else list(y) for y in x] for x in op]
+        op2[tpos[op[0]]] += shift
+        if op2[epos[op[0]]] is not None:
+            op2[epos[op[0]]] += shift
+        if H.is_directed() and op2[0] in ('star', 'cycle'):
+            op2[3] = 'f'
+        expected, applied, news = apply_model(M2, nodes, op2)
+        ex = call_real(H, nodes, op2)
+        if not rec.check(prefix + '.outcome', exc_kind(ex) == expected,
+                         lambda: '%s then %r: expected %s, got %s (%r)' % (ctx, op2, expected, exc_kind(ex), ex)):
+            return False
+    c2 = ctx + ' + %d shifted calls' % len(adds)
+    res &= check_presence(rec, prefix, H, M2, nodes, ctx=c2)
+    res &= check_timelines(rec, prefix + '.timelines', H, M2, ctx=c2)
+    res &= check_snapshots(rec, prefix + '.snapshots', H, M2, ctx=c2)
+    # closure of runs / replay are C05's business (its listed finding applies to point extensions here)
+    res &= check_stream(rec, prefix + '.stream', H, M2, ctx=c2, closure=False)
+    return res
